@@ -76,6 +76,10 @@ func everyIterationOf(p *core.Program, info *types.Info, body *ast.BlockStmt, s 
 					if !(m.Pos() <= s.Pos() && s.End() <= m.End()) {
 						// breaks inside belong to the switch; continue still matters
 						ast.Inspect(m, func(k ast.Node) bool {
+							switch k.(type) {
+							case *ast.ForStmt, *ast.RangeStmt, *ast.FuncLit:
+								return false // a loop inside the switch: its continue is its own
+							}
 							if bs, ok := k.(*ast.BranchStmt); ok && bs.Tok == token.CONTINUE {
 								why = fmt.Sprintf("a `continue` at %s can skip it", p.Rel(bs.Pos()))
 							}
@@ -92,6 +96,11 @@ func everyIterationOf(p *core.Program, info *types.Info, body *ast.BlockStmt, s 
 						if conds := enclosingConds(lb, b); len(conds) > 0 {
 							all := true
 							for _, cnd := range conds {
+								// `if elem == nil { continue }` on the element of an enclosing range: a null
+								// entry of the list is no row at all
+								if b.Tok == token.CONTINUE && isElemNilTest(info, chain, cnd) {
+									continue
+								}
 								if !allowCond(cnd, true) {
 									all = false
 								}
@@ -252,4 +261,30 @@ func endsWithReturn(l []ast.Stmt) bool {
 	}
 	_, ok := l[len(l)-1].(*ast.ReturnStmt)
 	return ok
+}
+
+// isElemNilTest: cond is `v == nil` with v the value variable of one of the
+// range statements in chain.
+func isElemNilTest(info *types.Info, chain []ast.Node, cond ast.Expr) bool {
+	be, ok := ast.Unparen(cond).(*ast.BinaryExpr)
+	if !ok || be.Op != token.EQL {
+		return false
+	}
+	x, y := ast.Unparen(be.X), ast.Unparen(be.Y)
+	if core.IsNil(info, x) {
+		x, y = y, x
+	}
+	if !core.IsNil(info, y) {
+		return false
+	}
+	v := core.VarOf(info, x)
+	if v == nil {
+		return false
+	}
+	for _, n := range chain {
+		if rs, ok := n.(*ast.RangeStmt); ok && rs.Value != nil && core.VarOf(info, rs.Value) == v {
+			return true
+		}
+	}
+	return false
 }
